@@ -91,8 +91,8 @@ def make_pool(rnd, n):
     return pool
 
 
-def key_of(pi, regs):
-    return "%d|%s" % (pi, ",".join(regs))
+def key_of(pi, regs, via=""):
+    return "%d|%s|%s" % (pi, ",".join(regs), via)
 
 
 def cmp_fields(r):
@@ -101,8 +101,8 @@ def cmp_fields(r):
     return {k: r.get(k) for k in ("p", "perr", "ast", "expr", "res", "snap", "poisoned")}
 
 
-def run_alone(wd, name, profile, text, vars_, regs):
-    steps = [PFN] + [REG[w] for w in regs] + [{"op": "ctx", "id": 0, "vars": vars_, "fns": FNS}, {"op": "exec", "ctx": 0, "text": text, "want": "ae"}]
+def run_alone(wd, name, profile, text, vars_, regs, via=""):
+    steps = [PFN] + [REG[w] for w in regs] + [{"op": "ctx", "id": 0, "vars": vars_, "fns": FNS}, dict({"op": "exec", "ctx": 0, "text": text, "want": "ae"}, **({"via": via} if via else {}))]
     run = common.run_vexec(steps, wd, name, profile)
     st = run.steps()
     return cmp_fields(st[-1]) if run.ended and st else None
@@ -247,15 +247,15 @@ def run_shard(desc):
     pool = make_pool(rnd, 60)
     alone = {}
 
-    def alone_of(pi, regs):
-        k = key_of(pi, regs)
+    def alone_of(pi, regs, via=""):
+        k = key_of(pi, regs, via)
         if k not in alone:
-            alone[k] = run_alone(wd, "alone-%d-%d" % (si, len(alone)), profile, pool[pi][0], pool[pi][1], regs)
+            alone[k] = run_alone(wd, "alone-%d-%d" % (si, len(alone)), profile, pool[pi][0], pool[pi][1], regs, via)
             part["counts"]["alone_runs"] += 1
         return alone[k]
 
-    def judge(kind, pi, regs, rec, pos, history_desc):
-        a = alone_of(pi, regs)
+    def judge(kind, pi, regs, rec, pos, history_desc, via=""):
+        a = alone_of(pi, regs, via)
         if a is None or rec is None:
             part["inconclusive"].append("missing record (alone=%s)" % (a is not None))
             return
@@ -322,6 +322,7 @@ def run_shard(desc):
         reg_at = sorted(rnd.sample(range(10, n), len(to_reg)))
         kept = {}
         cid = 0
+        recent = []  # (context id, index of the exec step that used it)
         for pos in range(n):
             if reg_at and pos == reg_at[0]:
                 reg_at.pop(0)
@@ -352,14 +353,22 @@ def run_shard(desc):
                 steps.append({"op": "exec_ast", "h": kept[(pi, tuple(regs))], "ctx": cid, "want": "e"})
                 plan.append(("kept", pi, list(regs), pos))
             else:
+                if recent and rnd.random() < 0.15:
+                    # look again at a context that an EARLIER evaluation used: nothing evaluated since (with other contexts) may have
+                    # changed it
+                    steps.append({"op": "snapshot", "ctx": rnd.choice(recent)[0]})
+                    plan.append(("oldsnap", steps[-1]["ctx"]))
                 steps.append({"op": "ctx", "id": cid, "vars": pool[pi][1], "fns": FNS})
                 plan.append(None)
                 if (pi, tuple(regs)) not in kept and rnd.random() < 0.3:
                     steps.append({"op": "parse", "text": pool[pi][0], "keep": cid})
                     plan.append(None)
                     kept[(pi, tuple(regs))] = cid
-                steps.append({"op": "exec", "ctx": cid, "text": pool[pi][0], "want": "ae"})
-                plan.append(("seq", pi, list(regs), pos))
+                via = "execute" if rnd.random() < 0.3 else ""
+                steps.append(dict({"op": "exec", "ctx": cid, "text": pool[pi][0], "want": "ae"}, **({"via": via} if via else {})))
+                plan.append(("seq", pi, list(regs), pos, via))
+                recent.append((cid, len(steps) - 1))
+                del recent[:-12]
         run = common.run_vexec(steps, wd, "seq-%d-%d" % (si, h), profile, timeout=600)
         kind_, detail = common.crash_verdict(run, "sequential history")
         if kind_ is not None or not run.ended:
@@ -383,12 +392,21 @@ def run_shard(desc):
                     part["violations"].append({"sig": ["parse-changed-context"], "what": "a parse-only step changed a live context: %s -> %s" % (json.dumps(snaps.get(pl[1])), json.dumps(recs[i].get("snap"))), "replay": None})
                 else:
                     part["classes"].add("parse-only")
+            elif pl[0] == "oldsnap":
+                part["evaluations"] += 1
+                part["counts"]["old_context_snapshots"] = part["counts"].get("old_context_snapshots", 0) + 1
+                src = [j for j, p2 in enumerate(plan) if p2 is not None and p2[0] == "seq" and steps[j].get("ctx") == pl[1]]
+                before = recs[src[-1]].get("snap") if src and src[-1] in recs else None
+                if before is not None and recs[i].get("snap") != before:
+                    part["violations"].append({"sig": ["earlier-context-changed"], "what": "the context left behind by `%s` held %s right after that evaluation; after later evaluations on OTHER contexts it holds %s" % (steps[src[-1]].get("text", "")[:120], json.dumps(before)[:300], json.dumps(recs[i].get("snap"))[:300]), "replay": None})
+                else:
+                    part["classes"].add("old-context-unchanged")
             elif pl[0] == "kept":
                 part["counts"]["kept_ast_runs"] += 1
                 judge("kept", pl[1], pl[2], recs[i], pl[3], "sequential")
             else:
                 part["counts"]["sequential_steps"] += 1
-                judge("sequential", pl[1], pl[2], recs[i], pl[3], "sequential")
+                judge("sequential", pl[1], pl[2], recs[i], pl[3], "sequential", pl[4])
     part["classes"] = sorted(part["classes"])
     return part
 
